@@ -139,7 +139,13 @@ enum CallRes {
 impl Session {
     fn new(cap: usize, term: &[u8], script: Vec<Outcome>) -> Session {
         let sh = Arc::new(Mutex::new(Shared { script: script.into(), attempts: vec![], nerr: 0 }));
-        let w = MultiLineWriter::with_ending(ScriptedWriter(sh.clone()), cap, std::str::from_utf8(term).unwrap());
+        // the plain constructor (newline terminator) is used every second time it applies
+        static FLIP: std::sync::atomic::AtomicU64 = std::sync::atomic::AtomicU64::new(0);
+        let w = if term == b"\n" && FLIP.fetch_add(1, std::sync::atomic::Ordering::Relaxed) % 2 == 0 {
+            MultiLineWriter::new(ScriptedWriter(sh.clone()), cap)
+        } else {
+            MultiLineWriter::with_ending(ScriptedWriter(sh.clone()), cap, std::str::from_utf8(term).unwrap())
+        };
         Session { w: Some(w), sh, seen: 0 }
     }
     fn new_attempts(&mut self) -> Vec<(Vec<u8>, Outcome, String)> {
@@ -427,12 +433,14 @@ pub fn drive(a: &Args) {
                 // bytes are filled in when the channel is drained later: the channel is FIFO, so the
                 // k-th message sent is the k-th received - no guessing.
                 let chan: Option<usize> = [None, None, Some(1), Some(2), Some(3)][rng.random_range(0..5)];
-                let use_default = rng.random_range(0..8) == 0;
+                let use_default = rng.random_range(0..8) == 0 || run % 8 == 7;
                 let cap = if use_default { 512 } else { cap };
                 let mut evs: Vec<Value> = vec![];
                 let mut holes: VecDeque<usize> = VecDeque::new();
                 evs.push(json!({"ev":"reset","cap":cap,"tlen":1,"term":"0a","kind":"spy","run":run}));
-                let (rx, sink) = if use_default {
+                let (rx, sink) = if use_default && chan.is_none() && run % 2 == 1 {
+                    BufferedSpyMetricSink::new()
+                } else if use_default {
                     BufferedSpyMetricSink::with_capacity(chan, None)
                 } else {
                     BufferedSpyMetricSink::with_capacity(chan, Some(cap))
